@@ -68,6 +68,7 @@ class Engine:
         self.events = []  # harness-level log (stub traffic), JSON-able
         self.missing = []  # concrete mode: names not present in the model
         self.forks = 0
+        self.decisions = []  # z3 conditions of the branch decisions taken on this path (with their polarity)
         if not self.concrete:
             self.solver = z3.Solver()
             self.solver.set("timeout", timeout_ms)
@@ -118,15 +119,18 @@ class Engine:
             d = self.prefix[i]
             self.trace.append(d)
             self.solver.add(cond if d else z3.Not(cond))
+            self.decisions.append(cond if d else z3.Not(cond))
             return d
         rt = self.check(cond)
         if rt == z3.unsat:
             self.solver.add(z3.Not(cond))
+            self.decisions.append(z3.Not(cond))
             self.trace.append(False)
             return False
         rf = self.check(z3.Not(cond))
         if rf == z3.unsat:
             self.solver.add(cond)
+            self.decisions.append(cond)
             self.trace.append(True)
             return True
         if rt == z3.unknown or rf == z3.unknown:
@@ -136,6 +140,7 @@ class Engine:
         self.work.append(self.trace + [False])
         self.trace.append(True)
         self.solver.add(cond)
+        self.decisions.append(cond)
         return True
 
     # ------------------------------------------------------------- variables
